@@ -33,6 +33,9 @@ def topologies(thorough):
            [('nocarry', None, 0), ('last2first', 1, 0), ('self', 0, 0)], [1])
     yield ('chain-same-abs', [_comp(A, 0), _comp(B, 0, deps=[(0, 'abs', 'output', None)])], 1,
            [('last2first', 1, 0)], [0, 1])
+    # the second component consumes the first one of THIS iteration and, through a loop-carried binding, of the LAST one
+    yield ('carry-and-dep', [_comp(A, 0), _comp(B, 0, deps=[(0, 'rel', 'output', None)])], 1,
+           [('first2second', 0, 1)], [1])
     # 2 looped components over two loop stages
     yield ('chain-2stage', [_comp(A, 0), _comp(B, 1, deps=[(0, 'abs', 'ref', None)])], 1,
            [('nocarry', None, 0), ('self1', 1, 1), ('self0', 0, 0)], [1])
@@ -144,8 +147,8 @@ def _ref_text(stage, producer, fil, method, relative=False):
     return '%s:%s' % (t, method)
 
 
-def to_documents(shape):
-    """-> (main FlowIR dict, DoWhile dict)."""
+def _loop_parts(shape, dwfile='dowhile.yaml'):
+    """-> (names of outside producers, importing component, consumer components, DoWhile dict) of one loop."""
     S = shape['S']
     comps = shape['comps']
     dw_components = []
@@ -187,13 +190,120 @@ def to_documents(shape):
     if loop_bindings or len(comps) % 2:
         dw['loopBindings'] = loop_bindings
     outside = sorted({b['outside'] for b in shape['bindings'].values()} | {OUT_X})
-    main_components = [{'stage': 0, 'name': n, 'command': {'executable': 'echo', 'arguments': n}} for n in outside]
-    main_components.append({'stage': S, 'name': 'loop', '$import': 'dowhile.yaml', 'bindings': bindings})
+    importer = {'stage': S, 'name': shape.get('loop_name', 'loop'), '$import': dwfile, 'bindings': bindings}
+    consumers = []
     for cons in shape['consumers']:
         refs = []
         for (pi, method, fil) in cons['refs']:
             p = comps[pi]
             refs.append(_ref_text(S + p['ls'], p['name'], fil, method))
-        main_components.append({'stage': cons['stage'], 'name': cons['name'], 'references': refs,
-                                'command': {'executable': 'echo', 'arguments': _args(refs)}})
-    return {'components': main_components}, dw
+        consumers.append({'stage': cons['stage'], 'name': cons['name'], 'references': refs,
+                          'command': {'executable': 'echo', 'arguments': _args(refs)}})
+    return outside, importer, consumers, dw
+
+
+def _outside_component(n):
+    return {'stage': 0, 'name': n, 'command': {'executable': 'echo', 'arguments': n}}
+
+
+def to_documents(shape):
+    """-> (main FlowIR dict, {file name under conf/: DoWhile dict}) for single- and multi-loop shapes."""
+    if 'loops' not in shape:
+        outside, importer, consumers, dw = _loop_parts(shape)
+        return {'components': [_outside_component(n) for n in outside] + [importer] + consumers}, {'dowhile.yaml': dw}
+    parts = [_loop_parts(loop, 'dw%d.yaml' % j) for j, loop in enumerate(shape['loops'])]
+    outside = sorted({n for p in parts for n in p[0]})
+    comps = [_outside_component(n) for n in outside]
+    comps += [parts[j][1] for j in shape['import_order']]
+    for p in parts:
+        comps += p[2]
+    for cons in shape.get('xconsumers', []):
+        refs = []
+        for (j, pi, method, fil) in cons['refs']:
+            loop = shape['loops'][j]
+            c = loop['comps'][pi]
+            refs.append(_ref_text(loop['S'] + c['ls'], c['name'], fil, method))
+        comps.append({'stage': cons['stage'], 'name': cons['name'], 'references': refs,
+                      'command': {'executable': 'echo', 'arguments': _args(refs)}})
+    return {'components': comps}, {'dw%d.yaml' % j: parts[j][3] for j in range(len(parts))}
+
+
+# ------------------------------------------------------------------ several DoWhile documents in one workflow
+def _topo(label, thorough=True):
+    return [t for t in topologies(thorough) if t[0] == label][0]
+
+
+def _loop(S, topo_label, carry_label, bvar, names, loop_name, suffix, with_y=False, spell='abs'):
+    topo = _topo(topo_label)
+    carry = [c for c in topo[3] if c[0] == carry_label][0]
+    loop = build_shape(S, topo, carry, bvar, with_y, True, spell)
+    for c, n in zip(loop['comps'], names):
+        c['name'] = n
+    loop['loop_name'] = loop_name
+    for cons in loop['consumers']:
+        cons['name'] += suffix
+    for k in ('store', 'reloads'):
+        loop.pop(k, None)
+    return loop
+
+
+def multi_shapes(thorough):
+    """Workflows with 2 (3) DoWhile documents whose loops advance independently."""
+    bv = binding_variants(True)
+    out = []
+
+    def add(label, loops, order, store=True):
+        top = max(l['S'] + max(c['ls'] for c in l['comps']) for l in loops)
+        refs_plain = [[j, l['cond'], 'ref', None] for j, l in enumerate(loops)]
+        refs_agg = [[j, 0, 'loopref', None] for j, l in enumerate(loops)] + [[len(loops) - 1, loops[-1]['cond'], 'loopoutput', 'f.txt']]
+        out.append({'label': 'multi/' + label, 'loops': loops, 'import_order': list(order), 'store': store,
+                    'xconsumers': [{'name': 'cons-all', 'stage': top + 1, 'refs': refs_plain},
+                                   {'name': 'cons-all-agg', 'stage': top + 1, 'refs': refs_agg}]})
+
+    def chain(S, names, lname, sfx, b=0):
+        return _loop(S, 'chain-same-rel', 'last2first', bv[b], names, lname, sfx)
+
+    def one(S, names, lname, sfx, b=1):
+        return _loop(S, 'one', 'self', bv[b], names, lname, sfx)
+
+    # two chains in consecutive stages, registered in both orders
+    add('stages-1-2', [chain(1, ('work', 'stopA'), 'loopA', '-a'), chain(2, ('refine', 'stopB'), 'loopB', '-b')], (0, 1))
+    add('stages-1-2/second-first', [chain(1, ('work', 'stopA'), 'loopA', '-a'), chain(2, ('refine', 'stopB'), 'loopB', '-b', 2)], (1, 0))
+    # both loops imported into the same stage
+    add('same-stage', [one(1, ('A',), 'loopA', '-a'), chain(1, ('C', 'D'), 'loopB', '-b', 3)], (0, 1), store=False)
+    # the looped components of the two loops have the same names (in different stages)
+    add('same-names', [one(0, ('A',), 'loopA', '-a', 0), one(1, ('A',), 'loopB', '-b', 1)], (0, 1))
+    if thorough:
+        add('same-names/chains', [chain(0, ('A', 'stop'), 'loopA', '-a'), chain(2, ('A', 'stop'), 'loopB', '-b', 1)], (1, 0))
+        add('different-topologies', [one(0, ('A',), 'loopA', '-a'),
+                                     _loop(1, 'three', 'self1', bv[0], ('P', 'Q', 'R'), 'loopB', '-b', with_y=True)], (0, 1))
+        add('suffix-names', [one(1, ('A',), 'loopA', '-a'), chain(1, ('BA', 'AB'), 'loopB', '-b')], (0, 1))
+        add('three-loops', [one(0, ('A',), 'loopA', '-a'), chain(1, ('B', 'C'), 'loopB', '-b'), one(1, ('D',), 'loopC', '-c', 2)], (0, 1, 2))
+    return out
+
+
+def multi_words(shape, thorough):
+    """Histories of a multi-loop shape: every word of length L over the loop letters (all interleavings; every prefix is
+    judged) plus long schedules in which one loop crosses the 9->10 boundary while another is behind, ahead or in step,
+    plus schedules with restarts (R) where the shape stores its FlowIR."""
+    n = len(shape['loops'])
+    letters = 'ABC'[:n]
+    L = (6 if n == 2 else 4) if thorough else 4
+    words = [''.join(w) for w in itertools.product(letters, repeat=L)]
+    kmax = 24 if thorough else 11
+    longs = []
+    for a in letters:
+        for b in letters:
+            if a != b:
+                longs.append(a * 2 + b * kmax)           # b far ahead of a (a registered before or after b)
+                longs.append(a * kmax + b * 3 + a)       # a ahead, then b catches up a little, then a again
+    longs.append((letters * kmax)[:n * (kmax if not thorough else 12)])     # lock step
+    if shape['store']:
+        longs.append('AAB' + 'R' + 'BBBA' + ('R' + 'B' * 8 + 'A' if thorough else ''))
+        longs.append('BBA' + 'R' + 'AAAB')
+    seen, out = set(), []
+    for w in words + longs:
+        if w not in seen:
+            seen.add(w)
+            out.append(w)
+    return out
